@@ -49,6 +49,9 @@ LEVEL2 = [([(2, 10)], "PLUS"), ([(2, 10)], "MINUS"), ([(1, 4), (6, 10)], "MINUS"
 
 
 def _hier_case(repo, it, S, spec):
+    rc_level = False
+    if len(spec) == 5:
+        spec, rc_level = spec[:4], True
     lv1, lv2, child_layout, child_strand = spec
     out = []
     n = 0
@@ -64,6 +67,13 @@ def _hier_case(repo, it, S, spec):
     img1 = image(l1_blocks, l1_strand)
     seq1 = mk_sequence(it, img1, ALPHA, id="lvl1", type=st["SEQUENCE_CHUNK"],
                        parent=mk_parent(it, location=loc1, sequence=chrom_seq))
+    if rc_level:
+        # the level is the reverse complement of the sequence placed by loc1: same blocks, opposite strand
+        k_, seq1 = run(it, repo.fn("sequence.sequence:Sequence.reverse_complement"), [], {"new_id": "lvl1", "new_type": st["SEQUENCE_CHUNK"]}, seq1)
+        if k_ != "ok":
+            return 1, [("reverse-complemented level", f"levels {lv1}: reverse_complement raises {seq1}", "sequence.sequence:Sequence.reverse_complement")]
+        l1_strand = "MINUS" if l1_strand == "PLUS" else "PLUS"
+        img1 = seq1.fields["sequence"]
     par1 = mk_parent(it, id="lvl1", sequence=seq1)
     outer_blocks, outer_strand = l1_blocks, l1_strand
     level_parent = par1
@@ -112,7 +122,9 @@ def _hier_case(repo, it, S, spec):
             out.append(("lift by type", f"{desc}: lifted to {blocks_of(v)}:{gs} = bases {got}; composing the level maps gives {pos} on {strand}", f_type.qual))
         else:
             par = v.fields.get("parent")
-            if not (isinstance(par, Obj) and par.fields.get("id") == "chr1" and par.fields.get("sequence") is not None):
+            if rc_level:
+                pass  # a level obtained by reverse_complement() records only its location: no sequence ancestor to compare with
+            elif not (isinstance(par, Obj) and par.fields.get("id") == "chr1" and par.fields.get("sequence") is not None):
                 out.append(("lift parent", f"{desc}: lifted location is not parented by the chromosome (with its sequence)", f_type.qual))
             elif not dup:
                 n += 1
@@ -122,6 +134,8 @@ def _hier_case(repo, it, S, spec):
                     out.append(("sequence preserved", f"{desc}: lifted location extracts {_seq_str(sv)!r}, the original extracts {_seq_str(cv)!r}", f_type.qual))
                 elif k2 != k3:
                     out.append(("sequence preserved", f"{desc}: extract_sequence lifted -> {k2}, original -> {k3}", f_type.qual))
+    if rc_level:
+        return n, out
     # by sequence identity (contiguous children only)
     contiguous = all(cblocks[i][1] == cblocks[i + 1][0] for i in range(len(cblocks) - 1))
     n += 1
@@ -244,6 +258,9 @@ def rk_hierarchies(ctx):
         for lv2 in [None] + (LEVEL2 if ctx.thorough else LEVEL2[:3]):
             for lay, sn in children:
                 specs.append((lv1, lv2, lay, sn))
+    for lv1 in LEVEL1:
+        for lay, sn in children[::2]:
+            specs.append((lv1, None, lay, sn, "rc"))
     ctx.r.floor("C04.RK", "hierarchy x child location cases", len(specs), 200)
     results = pmap(_runner(ctx.repo, _hier_case), specs)
     _report(ctx, "C04.RK", results, [
@@ -285,8 +302,15 @@ def r1_structural(ctx):
             "no-parent path raises NoSuchAncestorException", "first_ancestor_of_type raises something else than NoSuchAncestorException", fa)
 
 
+def r5_parent_identity(ctx):
+    """hierarchies are built from cached Parent objects: the memoisation key must distinguish ancestors (shared with C10.R5)"""
+    from .c10 import r5_cache_keys
+    r5_cache_keys(ctx)
+
+
 RULES = [
     ("C04.RK", rk_hierarchies),
+    ("C04.R5", r5_parent_identity),
     ("C04.RC", rc_chunks),
     ("C04.R1", r1_structural),
 ]
